@@ -214,6 +214,8 @@ type FnFacts struct {
 	edgeOut  map[[2]*ssa.BasicBlock]FactSet // facts at the end of an edge (previous iteration)
 	feasible map[[2]*ssa.BasicBlock][][]int // per outgoing edge of a test block: the compatible ways in (predecessor index chains)
 	resolved map[*ssa.Phi]ssa.Value
+	curEdge  [2]*ssa.BasicBlock
+	curExtra []Fact
 }
 
 // phiTest: the block's If tests a phi against nil, a constant or a boolean outcome. The phi belongs to the block
@@ -378,6 +380,37 @@ func chainFrom(join, b *ssa.BasicBlock) []*ssa.BasicBlock {
 	return chain
 }
 
+// forwardLoad: a load of a local variable that was stored just before in the same block (no call in between, which
+// could run a closure writing it) is the stored value — `err = merged; if err != nil` on a captured named result.
+func forwardLoad(v ssa.Value) ssa.Value {
+	u, ok := v.(*ssa.UnOp)
+	if !ok || u.Op != token.MUL {
+		return v
+	}
+	al, ok := u.X.(*ssa.Alloc)
+	if !ok || u.Block() == nil {
+		return v
+	}
+	instrs := u.Block().Instrs
+	pos := -1
+	for i, ins := range instrs {
+		if ins == ssa.Instruction(u) {
+			pos = i
+		}
+	}
+	for i := pos - 1; i >= 0; i-- {
+		switch y := instrs[i].(type) {
+		case *ssa.Store:
+			if y.Addr == ssa.Value(al) {
+				return y.Val
+			}
+		case ssa.CallInstruction:
+			return v
+		}
+	}
+	return v
+}
+
 // findTest recognises `if phi != nil`, `if phi == k`, `if phi`, `if !phi` (and their negations).
 func findTest(b *ssa.BasicBlock) *phiTest {
 	iff, ok := b.Instrs[len(b.Instrs)-1].(*ssa.If)
@@ -405,7 +438,7 @@ func findTest(b *ssa.BasicBlock) *phiTest {
 		}
 		return pt
 	}
-	if phi, isPhi := cond.(*ssa.Phi); isPhi {
+	if phi, isPhi := forwardLoad(cond).(*ssa.Phi); isPhi {
 		return mk(phi, &phiTest{isBool: true, neqOnTrue: !neg})
 	}
 	if bo, isB := cond.(*ssa.BinOp); isB && (bo.Op == token.EQL || bo.Op == token.NEQ) {
@@ -416,6 +449,7 @@ func findTest(b *ssa.BasicBlock) *phiTest {
 		} else if c, isC := bo.X.(*ssa.Const); isC {
 			other, k = bo.Y, c
 		}
+		other = forwardLoad(other)
 		if phi, isPhi := other.(*ssa.Phi); isPhi {
 			if k.Value == nil {
 				k = nil
@@ -623,8 +657,16 @@ func (ff *FnFacts) WalkFeasiblePath(prefix []*ssa.BasicBlock, skip func(path []*
 	dfs = func(path []*ssa.BasicBlock) bool {
 		x := path[len(path)-1]
 		for _, s := range x.Succs {
-			if !ff.IsLiveEdge(x, s) || (skip != nil && skip(path, s)) || !ff.PathFeasible(path, s) {
+			if !ff.IsLiveEdge(x, s) || !ff.PathFeasible(path, s) {
 				continue
+			}
+			if skip != nil {
+				ff.curEdge, ff.curExtra = [2]*ssa.BasicBlock{x, s}, ff.PathTestFacts(path, s)
+				vetoed := skip(path, s)
+				ff.curExtra = nil
+				if vetoed {
+					continue
+				}
 			}
 			if hit(s) {
 				return true
@@ -1091,7 +1133,13 @@ func (ff *FnFacts) At(ins ssa.Instruction) FactSet {
 
 // EdgeFacts returns the facts generated on edge from->to.
 func (ff *FnFacts) EdgeFacts(from, to *ssa.BasicBlock) []Fact {
-	return ff.edge[[2]*ssa.BasicBlock{from, to}]
+	base := ff.edge[[2]*ssa.BasicBlock{from, to}]
+	// during a feasibility-aware walk the edge being examined also carries what the test at its source says about the
+	// operand the walked path selected (see PathTestFacts)
+	if len(ff.curExtra) > 0 && ff.curEdge == [2]*ssa.BasicBlock{from, to} {
+		return append(append([]Fact{}, base...), ff.curExtra...)
+	}
+	return base
 }
 
 // EdgeOut returns the facts that hold when control has just taken the edge from->to (nil: edge never analysed).
@@ -1539,9 +1587,18 @@ func (ff *FnFacts) Returns() []ReturnInfo {
 // nilErr decides whether error value v can be nil at a point where facts
 // hold, and which extra facts follow if it is.
 func (ff *FnFacts) nilErr(v ssa.Value, facts FactSet) (bool, []Fact) {
+	return ff.nilErrSeen(v, facts, map[ssa.Value]bool{})
+}
+
+func (ff *FnFacts) nilErrSeen(v ssa.Value, facts FactSet, seen map[ssa.Value]bool) (bool, []Fact) {
 	if isNilConst(v) {
 		return true, nil
 	}
+	if seen[v] {
+		// a loop-carried value met again: it adds no way of being nil (or non-nil) beyond its other operands
+		return false, nil
+	}
+	seen[v] = true
 	switch x := v.(type) {
 	case *ssa.MakeInterface:
 		// a concrete value boxed into error: non-nil interface
@@ -1565,7 +1622,7 @@ func (ff *FnFacts) nilErr(v ssa.Value, facts FactSet) (bool, []Fact) {
 							return true, nil
 						}
 						if sv, isV := f.B.Val.(ssa.Value); isV && sv != v {
-							return ff.nilErr(sv, facts)
+							return ff.nilErrSeen(sv, facts, seen)
 						}
 					}
 				}
@@ -1573,7 +1630,7 @@ func (ff *FnFacts) nilErr(v ssa.Value, facts FactSet) (bool, []Fact) {
 		}
 	case *ssa.Phi:
 		if rv := ff.resolved[x]; rv != nil {
-			return ff.nilErr(rv, facts) // wherever it is used, the phi is this operand
+			return ff.nilErrSeen(rv, facts, seen) // wherever it is used, the phi is this operand
 		}
 		if facts.Has((&Fact{Kind: "cmp", Op: "!=", A: ff.TB.Of(v), B: &Term{Op: "const", Name: "nil"}}).Key()) {
 			return false, nil // tested non-nil after the join
@@ -1584,7 +1641,7 @@ func (ff *FnFacts) nilErr(v ssa.Value, facts FactSet) (bool, []Fact) {
 			if !ff.TB.LiveEdge(x.Block().Preds[i], x.Block()) {
 				continue
 			}
-			p, fs := ff.nilErr(e, facts)
+			p, fs := ff.nilErrSeen(e, facts, seen)
 			if !p {
 				continue
 			}
@@ -1619,7 +1676,7 @@ func (ff *FnFacts) nilErr(v ssa.Value, facts FactSet) (bool, []Fact) {
 		if wrapCtor(ct.Callee) && len(ct.Args) > 0 {
 			// non-nil iff wrapped error non-nil
 			if call, ok := ct.Val.(*ssa.Call); ok && len(call.Call.Args) > 0 {
-				return ff.nilErr(call.Call.Args[0], facts)
+				return ff.nilErrSeen(call.Call.Args[0], facts, seen)
 			}
 		}
 		return true, ff.okFail(ct, true)
